@@ -5,7 +5,7 @@
    The PUSH pseudo-instruction of the compiler picks the shortest push form. *)
 From Coq Require Import ZArith List String.
 From Coq.Strings Require Import Byte.
-From TS Require Import Bytes Codec Ops Names Asm BytesLemmas CodecProofs AsmProofs.
+From TS Require Import Bytes Codec Ops Names Asm BytesLemmas CodecProofs AsmProofs Assembler AssemblerProofs.
 Import ListNotations.
 Open Scope list_scope.
 Open Scope Z_scope.
@@ -89,6 +89,52 @@ Example C11_wf_needed :
   decode (encode [IVar1 O_PUSH1 (repeat x00 256)]) <> Some [IVar1 O_PUSH1 (repeat x00 256)].
 Proof. split; [vm_compute; reflexivity|]. vm_compute. discriminate. Qed.
 
+(* ---------------- the SOURCE language at symbol level (model/Assembler.v, proofs/AssemblerProofs.v) ----------------
+   assemble is a line-by-line executable model of parsing.assemble / parse_next / get_args / parse_def / parse_if / ...
+   on the symbols of a source (the output of parsing.get_symbols); it is compared with the real compiler on every run
+   (command ASRC: sources as written, damaged sources, malformed families).  [spells p syms]: syms is one of the
+   spellings of the abstract program p — any accepted name or alias in any letter case, any value form denoting the same
+   bytes (d / x / s prefixes, signs, leading zeros), PUSH pseudo-op or explicit PUSHn (with a size operand that matches),
+   @= / @ / @# forms, braces or END_ terminators, ELSE / EXCEPT in their five shapes, hoisted IF conditions. *)
+
+(* every spelling of every well-formed program assembles to the documented encoding: nothing dropped, duplicated, reordered *)
+Theorem C11_every_spelling_assembles_to_the_encoding :
+  forall fl2 p syms, spells fl2 p syms -> wf_prog p = true -> assemble fl2 syms = Some (encode p).
+Proof. exact assemble_spells. Qed.
+
+(* the decompiler's own listing is one of them; rejection of the malformed families after any well-spelled prefix; names
+   are case-insensitive; every alias of the generated table is a spelling.  Closed statements printed by Check. *)
+Definition C11_listing_assembles := @assemble_listing.
+Definition C11_listing_needs_no_nested_def := assemble_listing_needs_ldef_ok.
+Definition C11_rejected_after_prefix := @reject_after.
+Definition C11_rejected_operand_missing := @reject_operand_missing.
+Definition C11_rejected_push_size_mismatch := @reject_push1_size.
+Definition C11_rejected_unknown_name := @reject_unknown_name.
+Definition C11_rejected_extra_close := @reject_extra_close.
+Definition C11_rejected_unclosed_block := @reject_unclosed_block.
+Definition C11_names_case_insensitive := names_case_insensitive.
+Definition C11_every_alias_spells := @every_alias_spells.
+Definition C11_push_size_operand_checked := fixed_push1_size_checked.     (* D20, repaired: was a silent mis-assembly *)
+Check C11_listing_assembles.
+Check C11_rejected_after_prefix.
+Check C11_rejected_operand_missing.
+Check C11_rejected_push_size_mismatch.
+Check C11_rejected_unknown_name.
+Check C11_rejected_unclosed_block.
+Check C11_names_case_insensitive.
+
+Print Assumptions C11_every_spelling_assembles_to_the_encoding.
+Print Assumptions C11_listing_assembles.
+Print Assumptions C11_listing_needs_no_nested_def.
+Print Assumptions C11_rejected_after_prefix.
+Print Assumptions C11_rejected_operand_missing.
+Print Assumptions C11_rejected_push_size_mismatch.
+Print Assumptions C11_rejected_unknown_name.
+Print Assumptions C11_rejected_extra_close.
+Print Assumptions C11_rejected_unclosed_block.
+Print Assumptions C11_names_case_insensitive.
+Print Assumptions C11_every_alias_spells.
+Print Assumptions C11_push_size_operand_checked.
 Print Assumptions C11_decode_encode.
 Print Assumptions C11_encode_nil.
 Print Assumptions C11_encode_cons.
